@@ -4,17 +4,6 @@
 use super::*;
 use crate::__vsup::*;
 
-pub(crate) fn mk_desc() -> Desc {
-    Desc {
-        fq_name: String::new(),
-        help: String::new(),
-        const_label_pairs: Vec::new(),
-        variable_labels: Vec::new(),
-        id: 0,
-        dim_hash: 0,
-    }
-}
-
 /// A `HistogramCore` built field by field (no `Desc::new`, no bucket validation): the
 /// state space the step obligations quantify over is "any core with these bounds".
 pub(crate) fn mk_core(bounds: Vec<f64>) -> HistogramCore {
